@@ -811,6 +811,31 @@ func (eng *Engine) callersObligations(tag string) []*Obligation {
 					}
 				}
 			}
+			if len(rule.Allowed) == 1 && rule.Allowed[0] == "none" {
+				// "callers KEY only none": one obligation per calling function, so that each existing caller can be
+				// recorded as a finding of its own and a new caller is a new, unlisted violation
+				byCaller := map[string][]string{}
+				for _, b := range bad {
+					i := strings.Index(b, " at ")
+					byCaller[b[:i]] = append(byCaller[b[:i]], b[i+4:])
+				}
+				var cs []string
+				for c := range byCaller {
+					cs = append(cs, c)
+				}
+				sort.Strings(cs)
+				for _, c := range cs {
+					out = append(out, &Obligation{Name: "callgraph#" + rule.Label + "@" + c, Func: "call graph of /repo", Kind: "structural", Label: rule.Label, Tags: rule.Tags,
+						Pos: byCaller[c][0], Structural: true, StructOK: false, Guard: "true",
+						Goal:      fmt.Sprintf("%s does not call %s", c, rule.Callee),
+						StructMsg: fmt.Sprintf("%s calls %s at %s", c, rule.Callee, strings.Join(byCaller[c], ", "))})
+				}
+				if len(cs) == 0 {
+					out = append(out, &Obligation{Name: "callgraph#" + rule.Label, Func: "call graph of /repo", Kind: "structural", Label: rule.Label, Tags: rule.Tags,
+						Pos: fmt.Sprintf("%s:%d", rule.File, rule.Line), Structural: true, StructOK: true, Guard: "true", Goal: "no function calls " + rule.Callee})
+				}
+				continue
+			}
 			o := &Obligation{Name: "callgraph#" + rule.Label, Func: "call graph of /repo", Kind: "structural", Label: rule.Label, Tags: rule.Tags,
 				Pos: fmt.Sprintf("%s:%d", rule.File, rule.Line), Structural: true, StructOK: len(bad) == 0 && n > 0,
 				Goal: fmt.Sprintf("every call of %s (%d found) is inside %v", rule.Callee, n, rule.Allowed), Guard: "true"}
